@@ -243,7 +243,7 @@ static Case gen_chain() { return gen_common("chain"); }
 
 static void enum_digest(Enum& e) {
   uint64_t idx = 0;
-  uint64_t maxlen = e.thorough() ? 1100 : 300;
+  uint64_t maxlen = e.thorough() ? 1100 : 600;
   for (uint64_t len = 0; len <= maxlen && !e.stop; len++)
     for (uint64_t pattern = 0; pattern < 4; pattern++, idx++) {
       if (!e.mine(idx)) continue;
@@ -271,7 +271,7 @@ static void enum_vectors(Enum& e) {
 int main(int argc, char** argv) {
   std::vector<SubCheck> checks;
   checks.push_back({"vectors", run_vectors, nullptr, 0, 0, 100, enum_vectors});
-  checks.push_back({"digest", run_digest, gen_digest, 30000, 400000, 100, enum_digest});
-  checks.push_back({"chain", run_chain, gen_chain, 30000, 400000, 100, enum_chain});
+  checks.push_back({"digest", run_digest, gen_digest, 100000, 600000, 100, enum_digest});
+  checks.push_back({"chain", run_chain, gen_chain, 100000, 600000, 100, enum_chain});
   return main_(argc, argv, checks);
 }
